@@ -345,7 +345,7 @@ namespace occa {
   }
 
   double parseDouble(const char *c) {
-    double ret;
+    double ret = 0;
 #if (OCCA_OS & (OCCA_LINUX_OS | OCCA_MACOS_OS))
     sscanf(c, "%lf", &ret);
 #else
